@@ -4,7 +4,7 @@ Require Import ExtrOcamlBasic.
 From OFGA Require Import Generated.C26Tables Sec.Authz.
 Extraction Language OCaml.
 Extraction "c26_model.ml"
-  authorize write_authorize authorize_create_store authorize_system list_stores accessible_stores
+  authorize write_authorize authorize_create_store authorize_system list_stores list_stores_sqlite accessible_stores
   tr_list_stores_empty_grant extract_modules is_allow
   spec_allowed spec_write_allowed spec_system_allowed spec_relation relation_of
   method_of_bytes relation_of_bytes relation_bytes api_method_bytes all_api_methods all_relations
